@@ -195,6 +195,7 @@ static CbT cb_by_name(const std::string& f)
 }
 using Owner = sandbox_callback<long (*)(long), Sbx>;
 static std::map<std::string, Owner> owners[NSB];
+static std::vector<Owner> stale_owners[NSB]; // owners of an earlier incarnation, still alive
 
 // ---------------------------------------------------------------- guest side
 extern "C" {
@@ -359,6 +360,7 @@ static void timing_event()
 static void teardown()
 {
   for (int i = 0; i < NSB; i++) {
+    stale_owners[i].clear();
     owners[i].clear();
     given[i].clear();
     stale[i].clear();
@@ -423,6 +425,46 @@ int main(int argc, char** argv)
 #else
       e.str("tls", "library");
 #endif
+      out.put(e);
+    } else if (op == "recreate") {
+      // destroy and re-create the sandbox object while the owners of its callbacks stay alive
+      int si = sb_idx(a1);
+      tr::Ev e("recreate");
+      e.str("s", a1);
+      try {
+        for (auto& kv : owners[si]) {
+          stale_owners[si].push_back(std::move(kv.second));
+        }
+        owners[si].clear();
+        given[si].clear();
+        stale[si].clear();
+        void* ts = sb[si]->get_transition_state();
+        sb[si]->destroy_sandbox();
+#if defined(BK_VM)
+        sb[si]->create_sandbox(si == 0 ? &lib1 : &lib2);
+#elif defined(BK_DYLIB)
+        sb[si]->create_sandbox(argv[3 + (si % 2)]);
+#else
+        sb[si]->create_sandbox();
+#endif
+        sb[si]->set_transition_state(ts);
+        sb[si]->clear_transition_times();
+        e.str("out", "ok");
+      } catch (const std::runtime_error&) {
+        e.str("out", "abort");
+      }
+      out.put(e);
+    } else if (op == "dropstale") {
+      // the owners of the earlier incarnation end now: nothing of the new incarnation may change
+      int si = sb_idx(a1);
+      tr::Ev e("dropstale");
+      e.str("s", a1);
+      try {
+        stale_owners[si].clear();
+        e.str("out", "ok");
+      } catch (const std::runtime_error&) {
+        e.str("out", "abort");
+      }
       out.put(e);
     } else if (op == "reg") {
       int si = sb_idx(a1);
